@@ -19,9 +19,22 @@ type Ctx struct {
 	S    *sim.Sim
 	T    *sim.Tape
 	Tier string
+	Run  uint64 // run index (enumerating scenarios derive their case from it)
 	Plan map[string]interface{} // readable description of what this run does (goes into replay files)
 	mu   sync.Mutex
 	seq  int
+	stamp int64
+	// History is free storage handed to the scenario's Post function (e.g. a porcupine history).
+	History interface{}
+}
+
+// Stamp returns the next value of the run's global event sequence (strictly increasing; used to
+// stamp invoke/return events of histories).
+func (c *Ctx) Stamp() int64 {
+	c.mu.Lock()
+	defer c.mu.Unlock()
+	c.stamp++
+	return c.stamp
 }
 
 // Scenario is the workload + oracle of one property.
@@ -31,7 +44,7 @@ type Scenario struct {
 	Run  func(c *Ctx)
 	// Post turns library incidents recorded by the simulator (panics in library goroutines,
 	// aborted handlers) into verdicts, for the properties that are about them.
-	Post func(res *sim.Result) []sim.Violation
+	Post func(c *Ctx, res *sim.Result) []sim.Violation
 	// Enum, when set, makes every run a fault enumeration: a fault-free pilot run records its I/O
 	// points, then the run is repeated with one fault armed at each point (all kinds that apply).
 	Enum *EnumSpec
